@@ -127,6 +127,22 @@ def mkexc(name, msg):
         c.__context__ = OSError('root')
         e.__cause__ = c
         return e
+    if name == 'CauseCycle':     # raise A from B ... raise B from A
+        e = ValueError(msg)
+        c = KeyError('the other one')
+        e.__cause__ = c
+        c.__cause__ = e
+        return e
+    if name == 'ContextCycle':
+        e = ValueError(msg)
+        c = KeyError('the other one')
+        e.__context__ = c
+        c.__context__ = e
+        return e
+    if name == 'SelfCause':
+        e = ValueError(msg)
+        e.__cause__ = e
+        return e
     if name == 'Group':
         return ExceptionGroup(msg, [ValueError('g1'), KeyError('g2')])
     if name == 'Noted':
@@ -385,6 +401,9 @@ class VTCase(unittest.TestCase):
             self.addCleanup(self._bad_cleanup)
         if s == 'kbint_setup':
             raise KeyboardInterrupt()
+        if s.startswith('swap_'):
+            # the usual idiom: remember sys.stdout in setUp ...
+            self._saved_streams = (sys.stdout, sys.stderr)
         if s.startswith('die_setup:') and in_child():
             die(s.split(':', 1)[1])
 
@@ -397,6 +416,9 @@ class VTCase(unittest.TestCase):
         emit('t', vt['n'], 'tearDown')
         if vt['s'].startswith('die_teardown:') and in_child():
             die(vt['s'].split(':', 1)[1])
+        if vt['s'].startswith('swap_'):
+            # ... and put it back in tearDown
+            sys.stdout, sys.stderr = self._saved_streams
         if vt['s'] in ('teardown_err', 'body+teardown', 'fail+teardown'):
             raise mkexc(vt.get('e2', 'KeyError'), 'tearDown of %s' % vt['n'])
 
@@ -431,7 +453,9 @@ class VTCase(unittest.TestCase):
         if s in ('pass', 'teardown_err', 'cleanup_err', 'uxs', 'skip_dec',
                  'skip_cls'):
             return
-        if s in ('fail', 'xfail', 'fail+teardown'):
+        if s == 'swap_pass':
+            return
+        if s in ('fail', 'xfail', 'fail+teardown', 'swap_fail'):
             self.fail('boom %s' % vt['n'])
         if s in ('error', 'body+teardown'):
             if vt.get('e') == 'Named':
